@@ -515,6 +515,7 @@ func (m *Machine) obligation(cond *Term, kind, id, msg string) {
 	bad, mod := m.feasible(m.ts.Not(cond), false)
 	if !bad {
 		m.w.dischargedSolver++
+		m.w.sampleCross(append(append([]*Term{}, m.pc...), m.ts.Not(cond)), id)
 		return
 	}
 	if m.concrete == nil && mod == nil && !cond.IsFalse() {
